@@ -847,15 +847,23 @@ def _r2(ctx):
     ctx.rule("R-C14-2", floor=5, what="scale/shift rewrite only the load columns/levels; counts pass through")
     lc = prog.cls(LC)
     for name, meth in (("scale", "multiply"), ("shift", "add")):
-        f = prog.lookup_method(lc, name)
+        from ..inline import inlined
+        from ..astutil import inline_single_defs
+        f = inlined(prog, prog.lookup_method(lc, name))       # the common body of scale / shift may live in a private helper
         stores = [s for s in walk_function(f.node) if isinstance(s, (ast.Assign, ast.AugAssign)) and
                   any(isinstance(t, (ast.Subscript, ast.Attribute)) for t in (s.targets if isinstance(s, ast.Assign) else [s.target]))]
         ok = len(stores) == 1 and isinstance(stores[0], ast.Assign)
         if ok:
             t, v = stores[0].targets[0], stores[0].value
-            cols = [const_value(x) for x in t.slice.elts] if isinstance(t, ast.Subscript) and isinstance(t.slice, ast.List) else None
-            ok = cols == ["from", "to"] and isinstance(v, ast.Call) and isinstance(v.func, ast.Attribute) and v.func.attr == meth \
-                and isinstance(v.func.value, ast.Subscript) and norm_text(v.func.value) == norm_text(t) and \
+            sl = inline_single_defs(f.node, t.slice) if isinstance(t, ast.Subscript) and isinstance(t.slice, ast.Name) else getattr(t, "slice", None)
+            cols = [const_value(x) for x in sl.elts] if isinstance(sl, ast.List) else None
+            recv = None
+            if isinstance(v, ast.Call) and isinstance(v.func, ast.Attribute) and v.func.attr == meth:
+                if isinstance(v.func.value, ast.Subscript):
+                    recv = v.func.value                                         # X[cols].multiply(operand, axis=0)
+                elif norm_text(v.func.value) in ("pd.DataFrame", "pandas.DataFrame", "pd.Series") and v.args:
+                    recv = v.args[0]                                            # pd.DataFrame.multiply(X[cols], operand, axis=0)
+            ok = cols == ["from", "to"] and recv is not None and norm_text(recv) == norm_text(t) and \
                 any(k.arg == "axis" and const_value(k.value) == 0 for k in v.keywords)
         if ok:
             ctx.holds(f, stores[0], "%s: only columns from/to are rewritten (from/to .%s(operand, axis=0)); cycles untouched" % (name, meth))
